@@ -92,6 +92,13 @@ def apply(c):
     spec fn wf_in_rdata() -> bool where Self: Sized;
     /// ghost: the RFC of this type forbids compressing the names it contains (SRV NAPTR KX RRSIG NSEC IPSECKEY SVCB HTTPS)
     spec fn wf_nocomp() -> bool where Self: Sized;
+    /// ghost: observational equality -- every ghost view of every field agrees (what derived PartialEq compares)
+    spec fn wf_eqv(&self, other: &Self) -> bool;
+    /// the decoder is a function: one value (up to wf_eqv) and one end offset per (data, p)
+    proof fn lemma_det(data: Seq<u8>, p: int, v1: &Self, e1: int, v2: &Self, e2: int) where Self: Sized
+        requires Self::wf_dec(data, p, v1, e1), Self::wf_dec(data, p, v2, e2),
+        ensures e1 == e2, v1.wf_eqv(v2), // @C02:decoder-deterministic,C03:decoder-deterministic,C11:decoder-deterministic
+    ;
     /// round trip: the encoding of a value, appended to any prefix, decodes to that value
     proof fn lemma_rt(&self, pre: Seq<u8>) where Self: Sized
         requires self.wf_ok(), self.wf_canon(),
